@@ -961,6 +961,13 @@ class Interp:
                 return r
         if s2 in IDENTITY and args:
             return args[0]
+        if s2 == "Iterator::next" and args:
+            # std::iter::from_fn(f): each `next` is a call of f
+            x = args[0]
+            while isinstance(x, tuple) and x[0] == "term" and (T.short(x[1], 2) in IDENTITY or T.short(x[1], 2) in ITER_IDENTITY) and x[2]:
+                x = x[2][0]
+            if isinstance(x, tuple) and x[0] == "term" and T.short(x[1], 2) in ("iter::from_fn", "sources::from_fn", "from_fn::from_fn") and x[2]:
+                return self.apply(x[2][0], [], node, depth)
         im = {"Iterator::find": self.iter_find, "Iterator::find_map": self.iter_find_map, "Iterator::any": self.iter_any, "Iterator::all": self.iter_all,
               "Iterator::next": self.iter_next}.get(s2)
         if im is not None and self.model_iterators:
